@@ -212,6 +212,17 @@ func (e *effects) callees(info *types.Info, call *ast.CallExpr) []*types.Func {
 	return nil
 }
 
+// calleesOrSelf: the summarised callees of a call, or the statically resolved function itself when it has no summary.
+func (e *effects) calleesOrSelf(info *types.Info, call *ast.CallExpr, f *types.Func) []*types.Func {
+	if cs := e.callees(info, call); len(cs) > 0 {
+		return cs
+	}
+	if f != nil {
+		return []*types.Func{funcOrigin(f)}
+	}
+	return nil
+}
+
 // origins resolves an expression to the receiver paths / parameters whose storage it views.
 func (e *effects) origins(d *effDecl, x ast.Expr, depth int) []origin {
 	if depth > 8 || x == nil {
